@@ -117,6 +117,36 @@ Definition realm_name (configured : bytes) : bytes := match configured with [] =
 Definition basic_marker (configured : bytes) (applies cb_failed : bool) : bytes :=
   if negb applies || cb_failed then realm_name configured else [].
 
+(* ---------- credential writers as data ---------- *)
+(* the writers of client/auth_info.go: BasicAuth, BearerToken, APIKeyAuth (header or query), PassThroughAuth (also a nil
+   entry of a composition, which Compose skips) and Compose (the writers applied in order on the same request) *)
+Inductive writer :=
+| WBasic (u p : bytes)
+| WBearer (tok : bytes)
+| WKey (name : bytes) (loc : key_in) (v : bytes)
+| WPass
+| WCompose (ws : list writer).
+
+Fixpoint write_cred (w : writer) (q : request) : request :=
+  match w with
+  | WBasic u p => basic_write u p q
+  | WBearer tok => bearer_write tok q
+  | WKey name loc v => apikey_write name loc v q
+  | WPass => q
+  | WCompose ws => fold_left (fun acc w' => write_cred w' acc) ws q
+  end.
+
+(* does the writer put a value into the Authorization header *)
+Fixpoint writes_authorization (w : writer) : bool :=
+  match w with
+  | WBasic _ _ => true
+  | WBearer _ => true
+  | WKey name InHeader _ => bytes_eqb (lower name) s_authorization
+  | WKey _ InQuery _ => false
+  | WPass => false
+  | WCompose ws => existsb writes_authorization ws
+  end.
+
 (* ---------- the transport-wide default credential ---------- *)
 (* op / default: writers (None = not configured); the wrapper looks at the Authorization header
    parameter already set when the credentials are written *)
@@ -128,3 +158,7 @@ Definition effective_auth (op default : option (request -> request)) (q : reques
             | None => q
             end
   end.
+
+(* the same on writers as data *)
+Definition effective_cred (op default : option writer) (q : request) : request :=
+  effective_auth (option_map write_cred op) (option_map write_cred default) q.
